@@ -57,10 +57,10 @@ type req41 struct {
 	gate       *nfsx.Gate
 	calls      []*call41
 	// client-side knowledge used by the monitor
-	dsess int // session destroyed by the body (-1 none)
-	mark  int // number of requests that had been sent on the slot including this one
+	dsess   int    // session destroyed by the body (-1 none)
+	mark    int    // number of requests that had been sent on the slot including this one
 	falseOf *req41 // the request that consumed this (session, slot, sequence id) before: q is a false retry of it
-	msess   int  // session index told to the model (a session that did not exist when the arguments were built never exists for them)
+	msess   int    // session index told to the model (a session that did not exist when the arguments were built never exists for them)
 }
 
 type call41 struct {
@@ -98,13 +98,13 @@ type outcome struct {
 	flags    map[string]bool
 	executed []string
 	// for the reference run
-	replies map[int][]byte // key: label (op index in the original history) of the op that issued the call
-	effects []string
-	dropped map[int]bool // labels of retransmissions of accepted requests (left out of the reference run)
-	joinClass bool       // the violation is an in-flight false retry answered with the original's reply
-	sigClass  string     // stable signature of the violation class, if it has one
-	refs map[int]bool    // request ids whose replies later ops take state IDs from
-	defs map[int]int     // label of an op -> id of the request it introduced
+	replies   map[int][]byte // key: label (op index in the original history) of the op that issued the call
+	effects   []string
+	dropped   map[int]bool // labels of retransmissions of accepted requests (left out of the reference run)
+	joinClass bool         // the violation is an in-flight false retry answered with the original's reply
+	sigClass  string       // stable signature of the violation class, if it has one
+	refs      map[int]bool // request ids whose replies later ops take state IDs from
+	defs      map[int]int  // label of an op -> id of the request it introduced
 }
 
 type run41 struct {
